@@ -37,6 +37,36 @@ type EncOpts struct {
 	// EnvelopeNSFromRoot: the EncryptedAssertion element does not declare its own prefix; it relies on the
 	// declaration on the Response root (only layouts whose root declares xmlns:saml)
 	EnvelopeNSFromRoot bool
+	// RecipientAttr: the optional Recipient attribute of the EncryptedKey ("" = absent); a hint naming the
+	// intended recipient (entity ID, endpoint, alias): not something the SP may match keys on
+	RecipientAttr string
+	// B64Wrap: base64 text (cipher values, certificate) compact (0) or in 76-column lines with a leading
+	// and a trailing line break (1: LF, 2: CRLF) as Santuario / xmlsec write it
+	B64Wrap int
+	// CompressPlaintext: the plaintext is DEFLATE-compressed before encryption (the SP inflates whatever
+	// does not parse, top-level messages and plaintexts alike)
+	CompressPlaintext bool
+}
+
+func (o *EncOpts) b64(b []byte) string {
+	s := base64.StdEncoding.EncodeToString(b)
+	if o.B64Wrap == 0 {
+		return s
+	}
+	nl := "\n"
+	if o.B64Wrap == 2 {
+		nl = "\r\n"
+	}
+	var sb strings.Builder
+	sb.WriteString(nl)
+	for len(s) > 76 {
+		sb.WriteString(s[:76])
+		sb.WriteString(nl)
+		s = s[76:]
+	}
+	sb.WriteString(s)
+	sb.WriteString(nl)
+	return sb.String()
 }
 
 var DataAlgs = []string{types.MethodAES128GCM, types.MethodAES192GCM, types.MethodAES256GCM, types.MethodAES128CBC, types.MethodAES256CBC}
@@ -76,6 +106,8 @@ func DrawEncOpts(t *core.Tape, recipient *rsa.PublicKey, spCert []byte) *EncOpts
 	}
 	o.Rand = t.SubRand("enc.rand")
 	o.EnvelopeNSFromRoot = t.Int(3, "enc.nsfromroot") == 1
+	o.RecipientAttr = []string{"", "", "https://sp.example/acs", "https://sp.example/meta", "sp-alias", " "}[t.Int(6, "enc.recipientattr")]
+	o.B64Wrap = t.Int(3, "enc.b64wrap")
 	return o
 }
 
@@ -226,19 +258,26 @@ func EncryptedAssertionXML(o *EncOpts, ct, ek []byte) string {
 	}
 	ci := ""
 	if o.EmbedCert != nil {
-		ci = `<ds:KeyInfo xmlns:ds="` + NSDsig + `"><ds:X509Data><ds:X509Certificate>` + base64.StdEncoding.EncodeToString(o.EmbedCert) + `</ds:X509Certificate></ds:X509Data></ds:KeyInfo>`
+		ci = `<ds:KeyInfo xmlns:ds="` + NSDsig + `"><ds:X509Data><ds:X509Certificate>` + o.b64(o.EmbedCert) + `</ds:X509Certificate></ds:X509Data></ds:KeyInfo>`
 	}
-	ekx := `<xenc:EncryptedKey xmlns:xenc="` + NSXenc + `"><xenc:EncryptionMethod Algorithm="` + o.KeyAlg + `">` + dm + `</xenc:EncryptionMethod>` + ci + `<xenc:CipherData><xenc:CipherValue>` + base64.StdEncoding.EncodeToString(ek) + `</xenc:CipherValue></xenc:CipherData></xenc:EncryptedKey>`
+	ra := ""
+	if o.RecipientAttr != "" {
+		ra = ` Recipient="` + strings.NewReplacer("&", "&amp;", `"`, "&quot;", "<", "&lt;").Replace(o.RecipientAttr) + `"`
+	}
+	ekx := `<xenc:EncryptedKey xmlns:xenc="` + NSXenc + `"` + ra + `><xenc:EncryptionMethod Algorithm="` + o.KeyAlg + `">` + dm + `</xenc:EncryptionMethod>` + ci + `<xenc:CipherData><xenc:CipherValue>` + o.b64(ek) + `</xenc:CipherValue></xenc:CipherData></xenc:EncryptedKey>`
 	inl, det := ekx, ""
 	if o.Detached {
 		inl, det = "", ekx
 	}
-	return `<saml:EncryptedAssertion xmlns:saml="` + NSAssertion + `"><xenc:EncryptedData xmlns:xenc="` + NSXenc + `" Type="http://www.w3.org/2001/04/xmlenc#Element"><xenc:EncryptionMethod Algorithm="` + o.DataAlg + `"/><ds:KeyInfo xmlns:ds="` + NSDsig + `">` + inl + `</ds:KeyInfo><xenc:CipherData><xenc:CipherValue>` + base64.StdEncoding.EncodeToString(ct) + `</xenc:CipherValue></xenc:CipherData></xenc:EncryptedData>` + det + `</saml:EncryptedAssertion>`
+	return `<saml:EncryptedAssertion xmlns:saml="` + NSAssertion + `"><xenc:EncryptedData xmlns:xenc="` + NSXenc + `" Type="http://www.w3.org/2001/04/xmlenc#Element"><xenc:EncryptionMethod Algorithm="` + o.DataAlg + `"/><ds:KeyInfo xmlns:ds="` + NSDsig + `">` + inl + `</ds:KeyInfo><xenc:CipherData><xenc:CipherValue>` + o.b64(ct) + `</xenc:CipherValue></xenc:CipherData></xenc:EncryptedData>` + det + `</saml:EncryptedAssertion>`
 }
 
 // EncryptAssertion encrypts plaintext (a standalone assertion document, or anything an
 // attacker likes) to the recipient.
 func EncryptAssertion(o *EncOpts, pt []byte) (string, error) {
+	if o.CompressPlaintext {
+		pt = Deflate(pt, 6)
+	}
 	key := make([]byte, KeySizeOf(o.DataAlg))
 	io.ReadFull(o.Rand, key)
 	ct, err := SymEncrypt(o.DataAlg, key, pt, o.Rand)
